@@ -12,7 +12,7 @@ PROPS = {
         "rule": "operators x operands: exhaustive 30x30 int boundary grid x 17 binary int operators + 2 unary, 26x26 float grid x 11 operators, "
                 "all bool operand pairs, plus seeded random 64-bit / IEEE operands; each case evaluated in literal (folded at parse), "
                 "run-time (create_call on a pre-parsed function) and compound-assignment form and compared with an i128 / native-f64 oracle. "
-                "distinct_nontrivial = distinct (type, operator, operand values) triples; every triple is non-trivial (a full evaluation against the oracle).",
+                "distinct_nontrivial = distinct (type, operator, operand values) triples; every triple is non-trivial (a full evaluation against the oracle). Added after seeded changes: half-constant forms (one operand a literal in the function text) for ints and floats; two-level compound expressions (a unary or binary operator over the result of another, with run-time operands and literal constants, incl. nested shifts over every pair of boundary amounts) on a 14x14 int / 12x12 float grid; a helper that applies an operator to operands of its documented types and is refused by the checker is a violation.",
         "assumptions": COMMON_ASSUME + ["float oracle = the same operation on the host's f64 (IEEE-754 binary64; powf from the platform libm)"],
         "floors": {"quick": {"evaluations": 25000, "shape:errors_by_op": 5}, "thorough": {"evaluations": 50000, "shape:errors_by_op": 5}},
         "exhaustive": False,
@@ -29,7 +29,7 @@ PROPS["C09"] = {
             "(start, stop, step) triple drawn from {absent} U [-n-2, n+2] U {MIN, MIN+1, -2^32, -2^31, 2^31, 2^32, MAX-1, MAX}, all 8 slice shapes plus the `[a:b:]` spelling, exhaustive per listed sequence, "
             "plus seeded random sequences/bounds; each case evaluated folded (literal sequence) and at run time (sequence and bounds as arguments of a pre-parsed function) "
             "and compared with a PySlice_AdjustIndices oracle written over i128; std.len compared with the scalar count; static type of the literal form must admit the value. "
-            "distinct_nontrivial = distinct (sequence, operation, bounds) cases.",
+            "distinct_nontrivial = distinct (sequence, operation, bounds) cases. Added after seeded changes: half-constant forms (first element / whole sequence / index / one bound hidden from the folding pass); the sequence seen through a `[any]|string` parameter; repeat literals `[v; n]` written in place (v and n constant or not) indexed, sliced and measured; 35 static-typing templates (what the documented result kind obliges the checker to accept or refuse, incl. bare slices of non-sequences).",
     "assumptions": COMMON_ASSUME + ["oracle = Python slice semantics re-implemented in the harness over i128, independent of the slyce crate"],
     "floors": {"quick": {"evaluations": 50000, "shape:slice_shapes": 20}, "thorough": {"evaluations": 100000, "shape:slice_shapes": 20}},
     "technique": "runtime value monitor: differential against an independent Python-slice oracle, exhaustive bounded grid, folded and run-time forms",
@@ -45,7 +45,7 @@ PROPS["C20"] = {
             "strings over quotes, backslashes, every C0/C1 control, U+2028, combining marks, non-BMP, NUL before a digit); each value is printed with its Debug rendering and read back by "
             "Variable::from_str and by Code::parse(..).exec() (program route skipped for values containing MIN_INT); the result must be canonically equal, have the same type and be == to the original. "
             "Integer literal texts (0b/0o/0x/decimal, underscores, leading zeros, 63/64/65-bit magnitudes) are checked against u128 parsing: in range -> that value, otherwise IntegerOverflow. "
-            "distinct_nontrivial = distinct printed texts / literal texts.",
+            "distinct_nontrivial = distinct printed texts / literal texts. Added after seeded changes: the negative spelling of every integer literal through both readers; every literal also as an element of arrays / tuples (an over-long literal is refused wherever it stands); backslash followed by every printable ASCII character; arrays of up to 70 000 elements and strings of up to 1 000 000 characters.",
     "assumptions": COMMON_ASSUME + ["expected value of a printed text = the value it was printed from (harness keeps the original); the replay reader understands Rust Debug escapes"],
     "floors": {"quick": {"evaluations": 75000, "shape:int_literal_forms": 12, "shape:value_features": 12}, "thorough": {"evaluations": 150000, "shape:int_literal_forms": 12, "shape:value_features": 12}},
     "technique": "runtime round-trip monitor: print -> parse (two routes) -> compare with the original value and type; integer literal forms vs u128 oracle",
@@ -73,7 +73,7 @@ PROPS["C15"] = {
     "budget": {"quick": 50, "thorough": 420},
     "rule": "types from the depth-1 universe (complete) and sampled types of depth 2-4 focused on unions inside function results, mut contents, array elements, parameters and struct fields; each type is rebuilt and printed "
             "8 (quick) / 32 (thorough) times so several member/field orders occur, and every printed text is parsed back: the result must be canonically identical (harness comparison) and == to the original. "
-            "Additionally `[elements]~ ? T $]` runs in-language for the types and the selected elements are compared with harness membership. distinct_nontrivial = distinct types.",
+            "Additionally `[elements]~ ? T $]` runs in-language for the types and the selected elements are compared with harness membership. distinct_nontrivial = distinct types. Added after seeded changes: print / widen (`|`, `|=`) / print histories on one type value; structs, tuples, unions and parameter lists of up to 100 members; the type filter over structs each lacking one field.",
     "assumptions": COMMON_ASSUME + ["canonical type comparison (sorted members / fields) is the harness's, so the check does not inherit a broken =="],
     "floors": {"quick": {"evaluations": 25000, "shape:union_positions": 6, "types_seen_in_several_print_orders": 125, "type_filter_nonempty_selection": 50},
                "thorough": {"evaluations": 50000, "shape:union_positions": 6, "types_seen_in_several_print_orders": 250, "type_filter_nonempty_selection": 100}},
@@ -89,7 +89,7 @@ PROPS["C03"] = {
             "in four statement contexts (names bound as constants = folding paths; as typed parameters = run-time paths; inside a loop; in infix position), longer sequences sampled; all type-token sequences of length <= 4 (5 thorough) and value-literal token sequences of length <= 4; "
             "(b) grammar-directed programs that ignore types; (c) token-level mutations and splices of the documentation's snippets, example_scripts and a construct checklist; (d) the checklist itself incl. imports of missing / directory / non-UTF-8 / ill-formed / ill-typed files; "
             "(e) failing constant subexpressions (1/0, 1%0, 1<<64, 2**-1, [][0], ...) in every constant position; (f) arbitrary Unicode text. Oracle: no panic (resource panics are inconclusive). "
-            "distinct_nontrivial = distinct inputs that got past the pest grammar and reached instruction construction (accepted or rejected by the checker).",
+            "distinct_nontrivial = distinct inputs that got past the pest grammar and reached instruction construction (accepted or rejected by the checker). Added after seeded changes: (g) typed-generator programs; (h) every parameter x every postfix form (incl. every spelling of an int literal) x usage contexts; (i) the operator x operand-type family and constant operands of union static type; (j) names narrowed to a diverging branch x values x uses; (k) names used inside their own binder; files imported twice from scopes that differ in what the file reads.",
     "assumptions": COMMON_ASSUME + ["nesting depth <= 24 and literal sizes bounded (outside the claim beyond that); capacity-overflow / allocation panics are counted inconclusive"],
     "floors": {"quick": {"evaluations": 500000, "distinct": 25000, "checklist_accepted": 20, "shape:checker_errors": 25, "shape:import_cases": 10},
                "thorough": {"evaluations": 1000000, "distinct": 50000, "checklist_accepted": 20, "shape:checker_errors": 25, "shape:import_cases": 10}},
@@ -106,7 +106,7 @@ PROPS["C01"] = {
             "their accepted token-level mutants, and host-API calls (create_call, 3 generated argument vectors each) of every function value a program yields. A monitor hooked into Instruction::exec and Function::exec judges every instruction result, "
             "every bound argument and every returned value against the static type the checker computed for it, by runtime tag (as_type().matches) and by contents recursively (harness membership test; cells by exact declared type and current content), "
             "plus the program's reported type vs its result and all cells reachable from the result. Frames of the interpreter's generic helper closures are skipped (placeholder types); their element-carrying steps are judged against the retyped result. "
-            "The first violation of an execution is reported (later ones may be the same value flowing on). distinct_nontrivial = distinct program texts executed under the monitor.",
+            "The first violation of an execution is reported (later ones may be the same value flowing on). distinct_nontrivial = distinct program texts executed under the monitor. Added after seeded changes: the operator x operand-type family (optyping.rs: every binary operator, compound assignment, prefix / postfix and statement form, `$init` shape, iterator-operator parameter typing and `? T` filter type over a universe with unions; whatever is accepted is called with every combination of member values), constant operands of union static type, names narrowed to a diverging branch.",
     "assumptions": COMMON_ASSUME + ["membership of a value in a type is judged by the harness oracle (oracle.rs), not by Type::matches alone"],
     "floors": {"quick": {"exec_events_nontrivial": 75000, "shape:instruction_kinds_executed": 55, "shape:kind_type_value_triples": 800, "call_args_judged": 5000, "returns_judged": 5000, "helper_steps_judged": 500},
                "thorough": {"exec_events_nontrivial": 150000, "shape:instruction_kinds_executed": 55, "shape:kind_type_value_triples": 800, "call_args_judged": 10000, "returns_judged": 10000, "helper_steps_judged": 1000}},
@@ -121,7 +121,7 @@ PROPS["C02"] = {
     "rule": "same workload as C01 with the error-prone profile weighted in (zero divisors, shifts by 64, negative exponents / lengths, out-of-range indices at run time; break/continue/return at every nesting depth; matches over every union member; "
             "closures escaping their scope; iterators pulled after exhaustion; bounded recursion), accepted token-level mutants of accepted programs, and host-API calls of every yielded function with admissible arguments. "
             "Oracle: each execution ends with a value or one of the six documented errors; a panic (hook records message, location and the SimpleSL source being executed) or an undocumented error is a violation; fuel / depth / allocation exhaustion is inconclusive. "
-            "distinct_nontrivial = distinct program texts executed.",
+            "distinct_nontrivial = distinct program texts executed. Added after seeded changes: the same operator x operand-type, constant-union and diverging-branch families as C01 (accepted => no admitted argument list panics).",
     "assumptions": COMMON_ASSUME + ["fuel (6000 loop iterations + calls) and call depth 120 bound every execution; exceeding them is inconclusive, never a violation"],
     "floors": {"quick": {"evaluations": 25000, "shape:instruction_kinds_executed": 55, "shape:runtime_errors_observed": 4, "host-call:value": 750},
                "thorough": {"evaluations": 50000, "shape:instruction_kinds_executed": 55, "shape:runtime_errors_observed": 4, "host-call:value": 1500}},
@@ -135,7 +135,7 @@ PROPS["C02"] = {
 _DIFF_COMMON = ("programs from the typed generator (genp.rs; <= 10 top-level statements, expression depth <= 3-4, unique effect ids appended to a log cell by tick helpers), each rendered with literal constants and with every constant hidden behind an identity call, "
                 "both executed through Code::parse + exec_unscoped; ")
 _DIFF_REF = ("each accepted run is compared with an independent reference evaluator (refeval.rs: lexical scoping with snapshot capture, left-to-right exactly-once evaluation, short-circuit logic, documented arithmetic / slices / iterator list semantics, cells with identity); "
-             "the payload of an exhausted iterator step and anything the reference cannot decide is not judged; a violation is shrunk on the AST while the same class persists. distinct_nontrivial = distinct program texts.")
+             "the payload of an exhausted iterator step and anything the reference cannot decide is not judged; a violation is shrunk on the AST while the same class persists. distinct_nontrivial = distinct program texts. Added after seeded changes: the generator's typing is exact, so a hidden-constant twin that the checker refuses although the reference evaluator ran the program to completion is a violation (valid-program-rejected); effectful function operands, widened unions, inferred cells over exactly-typed initialisers, structured run-time type tests (arrays / tuples of unions, cells, a struct behind a union), default arms anywhere, value arms on union scrutinees, never-matching while-set / if-set, struct literals in any field order with repeated names, float / string reductions.")
 
 def _diff(prop, focus, judged, technique, floors_extra=None):
     floors = {"programs": 5000, "shape:constructs": 70}
@@ -178,7 +178,7 @@ PROPS["C19"] = {
             "(literal, concatenation at each split incl. with [], slice of a longer array, [:] , ~ $], @ id $], ? p $], ? any $], both sides of \\, [v; n], a cell read, functions typed [any] / any) x all path pairs, "
             "for equal contents and for contents of equal length or empty (the interesting unequal ones), with constant and with hidden (run-time) operands, plain and wrapped in tuples / structs / arrays: "
             "a == b, b == a, a != b, b != a, value-arm match and a == a are compared with the reference equality (element-wise, floats IEEE, different kinds unequal). Plus a checklist of scalar / cross-kind / function / cell identity cases "
-            "and host-built arrays with every stored element type compared through Variable == and in-language. distinct_nontrivial = distinct comparison programs.",
+            "and host-built arrays with every stored element type compared through Variable == and in-language. distinct_nontrivial = distinct comparison programs. Added after seeded changes: static views (the same value through differently typed parameters, also with one operand a literal); identity of functions and cells seen from inside a function body; containers holding NaN compared with their aliases; nesting 127-400 levels deep; negated spellings of == / !=; floats one or two ulps apart.",
     "assumptions": COMMON_ASSUME + ["reference equality = the documented one, implemented in the harness over its own content representation"],
     "floors": {"quick": {"evaluations": 25000, "shape:path_pairs": 256, "expected-equal": 2500, "expected-unequal": 5000, "host-built-pairs": 2500, "scalar-cases-held": 150},
                "thorough": {"evaluations": 50000, "shape:path_pairs": 256, "expected-equal": 5000, "expected-unequal": 10000, "host-built-pairs": 5000, "scalar-cases-held": 150}},
@@ -194,7 +194,7 @@ PROPS["C14"] = {
             "all 6859 chains of three operators (6 operand typings, 1 random operand draw in quick, 8 in thorough), each written with and without spaces, with constant and with hidden (run-time) operands: the unparenthesised text must evaluate (value, "
             "error kind or rejection) like the full parenthesisation the documented 14-level table prescribes, evaluated by the harness's own precedence-climbing evaluator and through the real parser on the parenthesised text; "
             "a case counts as discriminating only if another grouping (all-left or all-right) gives a different outcome or is ill-typed. Plus 80 fixed templates for postfix vs prefix, prefix vs iterator level vs **, "
-            "iterator-level associativity, `? type`, right-associative assignments (all 12), and maximal-munch spellings. distinct_nontrivial = distinct expression texts.",
+            "iterator-level associativity, `? type`, right-associative assignments (all 12), and maximal-munch spellings. distinct_nontrivial = distinct expression texts. Added after seeded changes: relational templates (the unparenthesised text must behave exactly like its documented grouping, rejection included): every assignment operator x every binary operator topping its right-hand side (plain and chained); prefix and iterator-level operators against both postfix levels; a level-1 postfix form directly after a level-3 postfix operator.",
     "assumptions": COMMON_ASSUME + ["the table is the one in docs/operators.md, encoded in c14.rs"],
     "floors": {"quick": {"discriminating-cases": 6250, "shape:operator_chains_discriminated": 3000, "templates": 75},
                "thorough": {"discriminating-cases": 12500, "shape:operator_chains_discriminated": 3000, "templates": 75}},
@@ -210,7 +210,7 @@ PROPS["C05"] = {
             "HashSet / HashMap instance inside gets fresh hash keys - and again in 3 / 8 freshly started processes; accepted-or-not, the canonicalised static type (sorted union members / struct fields), the canonicalised value or the error variant must be identical. "
             "(types) pairs of types (depth-1 universe and unions of >= 3 generated members of depth <= 3) are built 8 times each through constructors and through parsing in permuted member order, and 23 public Type API answers "
             "(==, matches both ways, |, conjoin, index_result, params, return_type, element_type, mut_element_type, tuple_len, min_tuple_len, iter_element, tuple_element_at, field_type, has_field, flatten_tuple, is_*) must be identical across builds; "
-            "separately built copies must be == and mutually matching. distinct_nontrivial = distinct program texts and type pairs.",
+            "separately built copies must be == and mutually matching. distinct_nontrivial = distinct program texts and type pairs. Added after seeded changes: unions of API-shaped members (iterator / callable / indexable / cell / tuple / struct shapes with `any` and concrete types; all-tuple unions of different lengths) in the type-API repetition family; an imported file rewritten 40 times (same path, same length) between parses in one process.",
     "assumptions": COMMON_ASSUME + ["hash orders explored are whatever the runtime's random keys produce in the repetitions, not all permutations; evidence counts how many programs / types were actually seen in more than one print order"],
     "floors": {"quick": {"programs": 1250, "cross-process-comparisons": 2500, "copies-compared": 12500, "programs-with-several-print-orders-of-their-type": 50},
                "thorough": {"programs": 2500, "cross-process-comparisons": 5000, "copies-compared": 25000, "programs-with-several-print-orders-of-their-type": 100}},
@@ -227,7 +227,7 @@ PROPS["C17"] = {
             "(one canonical tuple, so aliasing between variables counts) must agree for every prefix; acceptance differences are recorded, not flagged. (exec) programs parsed against an interpreter that was set up by earlier statements: "
             "exec() must leave every known name bound to the same cell / function / value; programs parsed against a bare interpreter are executed twice: equal results and no cell shared between the two results. "
             "(host calls) 19 hand-written functions x 120 argument vectors each (well-typed, extra / missing argument, one ill-typed argument; the same contents generated twice so each route gets its own cells) and every function a generated history yields: "
-            "create_call must accept exactly when the in-language call of the same values is accepted, and (fixed functions) return the same value or error. distinct_nontrivial = distinct histories / programs.",
+            "create_call must accept exactly when the in-language call of the same values is accepted, and (fixed functions) return the same value or error. distinct_nontrivial = distinct histories / programs. Added after seeded changes: 18 hand-written histories (one site evaluated several times, helper-closure names, re-bound names, state created by a run) under every split, each also executed three times as one parsed program; host functions with structured-union and no parameters; the host call run unscoped in a session preloaded with every identifier of the function text.",
     "assumptions": COMMON_ASSUME + ["the set of top-level names of a history comes from the generator (the interpreter has no enumeration API)", "results of generated (possibly stateful) functions are not compared between the two call routes, only acceptance"],
     "floors": {"quick": {"histories": 750, "prefixes-compared": 25000, "splits": 7500, "exec:repeatability-judged": 375, "host-call:both-accept": 750, "host-call:both-reject": 500},
                "thorough": {"histories": 1500, "prefixes-compared": 50000, "splits": 15000, "exec:repeatability-judged": 750, "host-call:both-accept": 1500, "host-call:both-reject": 1000}},
